@@ -63,6 +63,11 @@ func c12TokenValue(v string) *oidc.TokenResponse {
 		return &oidc.TokenResponse{IDToken: id, AccessToken: "at-" + v, AccessTokenExpiresAt: exp}
 	case "zero-expiry":
 		return &oidc.TokenResponse{IDToken: id, AccessToken: "at-" + v, RefreshToken: "rt-" + v}
+	case "stale-claims":
+		// an ID token whose exp is long past and whose iat/nbf lie in the future by the wall clock: a store keeps and
+		// returns what it was given, judging tokens is the handler's business
+		old := world.Mint(world.KeyEC, nil, map[string]any{"sub": "u-" + v, "aud": "c", "exp": int64(1000000000), "iat": int64(4102444800), "nbf": int64(4102444800)})
+		return &oidc.TokenResponse{IDToken: old, AccessToken: "at-" + v, RefreshToken: "rt-" + v, AccessTokenExpiresAt: time.Unix(1000000000, 0)}
 	}
 	panic(v)
 }
@@ -264,7 +269,8 @@ func (s *c12Sys) createdCheck() string {
 
 func c12Model(run *ev.Run, absSec int) seqx.Model {
 	ids := []string{"a", "b"}
-	shapes := []string{"full", "no-access", "no-refresh", "zero-expiry"}
+	// (only values the handler can write: the ID token is always a JWT that parsed)
+	shapes := []string{"full", "no-access", "no-refresh", "zero-expiry", "stale-claims"}
 	if absSec > 0 {
 		ids, shapes = []string{"a"}, []string{"full", "no-access"}
 	}
